@@ -592,7 +592,9 @@ fn run_big(job: &Job, part: &mut Part, round: u64) {
     let churn_rounds = if job.thorough { 6000u64 } else { 400 };
     let finished = AtomicU64::new(0);
     let cfg = job.run_cfg(round, false);
-    let out = run_threads(&cfg, 4, &|tid| {
+    // two threads that create and remove children, ONE thread that collects (with pauses): the shim acquires
+    // locks with an unfair try-lock loop, several back-to-back readers would starve the writers
+    let out = run_threads(&cfg, 3, &|tid| {
         if tid < 2 {
             for k in 0..churn_rounds {
                 let a = format!("churn-{}-{}", tid, k % 7);
@@ -627,6 +629,8 @@ fn run_big(job: &Job, part: &mut Part, round: u64) {
                 if fin {
                     break;
                 }
+                // the shim's lock acquisition is a try-lock loop without fairness: leave the writers room
+                std::thread::sleep(std::time::Duration::from_millis(1));
             }
         }
     });
